@@ -124,7 +124,9 @@ def generate(rng, tier):
     for i in range(8 * mult):
         p, sk = gen_source(rng, zeros=False)
         b0 = rng.choice([0.0, 0.5, 1.0])
-        betas = [b0 + k * rng.choice([1.0, 1.5, 2.0]) for k in range(4)]
+        betas = [b0]
+        for _ in range(3):
+            betas.append(betas[-1] + rng.choice([1.0, 1.5, 2.0]))      # strictly increasing, steps >= 1
         cases.append({'kind': 'sweep', 'p': p, 'skind': sk, 'betas': betas, 'restarts': 6, 'npseed': rng.randrange(10 ** 6)})
     for i in range(16 * mult):
         n, m = rng.choice([(2, 2), (2, 3), (3, 2), (3, 3), (3, 4)])
